@@ -1,5 +1,5 @@
 (* C01 — select() returns exactly the elements CSS semantics designate.  Statements only. *)
-From SV Require Import Base Regex Tree IR Lit Inputs Match MatchFacts FuelFacts.
+From SV Require Import Base Regex Tree IR Lit Inputs Match MatchFacts FuelFacts RunFacts AttrPat AttrFacts.
 
 (* The document object itself is never an element: asking whether it matches is always False. *)
 Theorem C01_document_is_not_an_element : forall bidi cx fuel e sels p m,
@@ -19,3 +19,41 @@ Theorem C01_fuel_irrelevant : forall bidi cx fuel k e p l m,
   match_selectors bidi cx (fuel + k) e p l m = match_selectors bidi cx fuel e p l m.
 Proof. exact fuel_irrelevant. Qed.
 Print Assumptions C01_fuel_irrelevant.
+
+(* ---- attribute operators.  The patterns are the ASTs AttrPat.attr_template builds (validated AST-for-AST against what the
+   live parser compiles, on every run); a value x is accepted when `pattern.match(x)` succeeds.  Case-sensitive form,
+   for EVERY v and EVERY value x (valid code points): ---- *)
+Theorem C01_attr_equals : forall v x dotall, accepts (attr_template OpEq v false dotall) x = true <-> x = v.
+Proof. exact op_eq_spec. Qed.
+Print Assumptions C01_attr_equals.
+
+(* [a^=v]: v is not empty and x starts with v  --  an empty value designates nothing *)
+Theorem C01_attr_prefix : forall v x dotall,
+  accepts (attr_template OpPrefix v false dotall) x = true <-> v <> [] /\ prefixb v x = true.
+Proof. exact op_prefix_spec. Qed.
+Print Assumptions C01_attr_prefix.
+
+(* [a$=v]: v is not empty and x ends with v *)
+Theorem C01_attr_suffix : forall v x, valid_str x ->
+  accepts (attr_template OpSuffix v false true) x = true <-> v <> [] /\ exists l, x = l ++ v.
+Proof. exact op_suffix_spec. Qed.
+Print Assumptions C01_attr_suffix.
+
+(* [a*=v]: v is not empty and occurs in x *)
+Theorem C01_attr_substring : forall v x, valid_str x ->
+  accepts (attr_template OpSubstr v false true) x = true <-> v <> [] /\ exists l r, x = l ++ v ++ r.
+Proof. exact op_substr_spec. Qed.
+Print Assumptions C01_attr_substring.
+
+(* [a|=v]: x is v, or v followed by '-' and anything *)
+Theorem C01_attr_dash : forall v x, valid_str x ->
+  accepts (attr_template OpDash v false true) x = true <-> x = v \/ exists r, x = v ++ [45%N] ++ r.
+Proof. exact op_dash_spec. Qed.
+Print Assumptions C01_attr_dash.
+
+(* [a~=v]: v is not empty, contains no white space, and is one of the white-space separated words of x *)
+Theorem C01_attr_word : forall v x, valid_str x ->
+  accepts (attr_template OpWord v false true) x = true <->
+  v <> [] /\ has_ws v = false /\ exists l r, x = l ++ v ++ r /\ ws_or_edge (rev l) = true /\ ws_or_edge r = true.
+Proof. exact op_word_spec. Qed.
+Print Assumptions C01_attr_word.
